@@ -38,7 +38,7 @@ rewards pool and state-proof sender is empty-closed or holds at least the min ba
 evaluator's state after the commit. -/
 theorem minbalance_post (P : Params) (x : Ctx) (s s' : EvalState) (g : List Txn) (hg : g ≠ [])
     (h : evalGroup P x s g = .ok s') :
-    ∃ child, evalGroupChild P x s.top g = .ok child ∧
+    ∃ child, evalGroupChild P x s.top s.txBytes g = .ok child ∧
       ∀ a ∈ modified child, exempt P a = false → MinBalOK P (acctOf x s'.top a) := by
   obtain ⟨child, hc, rfl⟩ := evalGroup_ok hg h
   refine ⟨child, hc, fun a ha he => ?_⟩
